@@ -31,13 +31,14 @@ META = {
             "encrypted, OpenSSH-format RSA/ECDSA/Ed25519 plain, bcrypt+aes256-cbc/ctr encrypted, odd padding, "
             "empty, PKCS8; 10 written by paramiko/cryptography and kept as fixtures: AES-256 PEM, OpenSSH-format "
             "of every key type plain and encrypted).  For every file: at EVERY byte offset of the file text "
-            "{flip bit 0, flip bit 5, flip bit 7, delete, duplicate, truncate here}; at EVERY byte offset of the "
-            "decoded body {flip bit 0, flip bit 7, set 00, set ff, delete, insert 00, truncate here} re-encoded "
+            "{flip bit 0, flip bit 5, flip bit 7, delete, duplicate, truncate here} (quick: without flip 5 / "
+            "duplicate); at EVERY byte offset of the decoded body {flip bit 0, flip bit 7, set 00, set ff, delete, "
+            "insert 00, truncate here} (quick: without set 00 / insert 00) re-encoded "
             "under the original armour; every line dropped / duplicated / swapped with the next; armour tag "
             "rewrites; the body of every other file under this file's armour.  Each mutated file is loaded with "
             "the right passphrase (and, for encrypted files, without one) by RSAKey, ECDSAKey and Ed25519Key "
-            "(quick: the two non-native classes only on every 4th offset; the two RSA-2048 OpenSSH files every 4th "
-            "offset beyond the first 256; thorough adds double faults: two body bytes <= 4 apart) through from_private_key_file "
+            "(quick: the two non-native classes and the no-passphrase load only on every 8th offset; beyond the first 128 offsets the two RSA-2048 OpenSSH files "
+            "every 8th and the six RSA-1024 files every 2nd offset; thorough adds double faults: two body bytes <= 4 apart) through from_private_key_file "
             "(and from_private_key on every 8th case).  Allowed outcomes: SSHException (any subclass), or a key "
             "that signs, verifies under its own public encoding and equals the public section of the very file "
             "it was loaded from; an unencrypted OpenSSH-format file whose two check integers differ must not load.",
@@ -169,6 +170,8 @@ def rearmor(head, raw, tail):
 
 TEXT_EDITS = ["flip0", "flip5", "flip7", "delete", "duplicate", "truncate"]
 BIN_EDITS = ["flip0", "flip7", "set00", "setff", "delete", "insert00", "truncate"]
+QUICK_TEXT_EDITS = ["flip0", "flip7", "delete", "truncate"]
+QUICK_BIN_EDITS = ["flip0", "flip7", "setff", "delete", "truncate"]
 
 
 def text_edit(content, kind, i):
@@ -268,9 +271,11 @@ def n_bin(fid):
 
 
 # quick tier only: the two RSA-2048 OpenSSH-format files cost ~10 ms per load that reaches
-# RSAPrivateNumbers.private_key(); beyond the first 256 offsets of each level every 4th offset is taken.
-QUICK_STRIDE = {"rsa2048-ossh-bcrypt": 4, "rsa2048-ossh-nopad": 4}
-QUICK_DENSE = 256
+# RSAPrivateNumbers.private_key() (the bundled RSA-1024 PEM files ~3 ms); beyond the first 128 offsets of each
+# level every 8th (2nd) offset is taken.
+QUICK_STRIDE = {"rsa2048-ossh-bcrypt": 8, "rsa2048-ossh-nopad": 8, "rsa-pem": 2, "rsa-pem-des3": 2,
+                "gen-rsa-pem": 2, "gen-rsa-pem-aes256": 2, "gen-rsa-ossh": 2, "gen-rsa-ossh-bcrypt": 2}
+QUICK_DENSE = 128
 PAIR_WINDOW = 4
 PAIRS_SKIP = {"rsa2048-ossh-bcrypt", "rsa2048-ossh-nopad"}
 
@@ -285,12 +290,12 @@ def cases(fid, level, lo, hi, tier="thorough"):
     c = CONTENT[fid]
     if level == "text":
         for i in offsets(fid, tier, lo, hi):
-            for k in TEXT_EDITS:
+            for k in (TEXT_EDITS if tier == "thorough" else QUICK_TEXT_EDITS):
                 yield "text:%s@%d" % (k, i), text_edit(c, k, i), i
     elif level == "bin":
         head, raw, tail = split_armor(c)
         for i in offsets(fid, tier, lo, hi):
-            for k in BIN_EDITS:
+            for k in (BIN_EDITS if tier == "thorough" else QUICK_BIN_EDITS):
                 yield "bin:%s@%d" % (k, i), rearmor(head, bin_edit(raw, k, i), tail), i
     elif level == "pairs":
         # double faults (thorough): two bytes of the decoded body, at most PAIR_WINDOW apart, both with
@@ -328,12 +333,23 @@ def exc_name(e):
 
 
 WORKDIR = [None]
+SCRATCH_ROOT = [None]     # one directory per check run (made in main/replay, removed there); workers use files in it
 
 
 def scratch():
+    if SCRATCH_ROOT[0] is None:
+        SCRATCH_ROOT[0] = tempfile.mkdtemp(prefix="c37-", dir="/dev/shm")
     if WORKDIR[0] is None or not os.path.isdir(WORKDIR[0]):
-        WORKDIR[0] = tempfile.mkdtemp(prefix="c37-%d-" % os.getpid(), dir="/dev/shm")
+        WORKDIR[0] = os.path.join(SCRATCH_ROOT[0], "w%d" % os.getpid())
+        os.makedirs(WORKDIR[0], exist_ok=True)
     return os.path.join(WORKDIR[0], "key")
+
+
+def cleanup():
+    if SCRATCH_ROOT[0]:
+        shutil.rmtree(SCRATCH_ROOT[0], ignore_errors=True)
+        SCRATCH_ROOT[0] = None
+        WORKDIR[0] = None
 
 
 def do_load(cname, api, content, pw):
@@ -445,7 +461,7 @@ def loaders_for(fid, tier, idx):
     native = FSPEC[fid][4]
     out = [(native, "file")]
     others = [c for c in CLASSES if c != native]
-    if tier == "thorough" or idx % 4 == 0:
+    if tier == "thorough" or idx % 8 == 0:
         out += [(c, "file") for c in others]
     if idx % 8 == 0:
         out.append((native, "fileobj"))
@@ -485,7 +501,7 @@ def work(item, acc):
                 res = judge(acc, fid, cname, api, label, content, pw, "right" if pw else "none-needed")
                 if not (isinstance(res, str) and res.endswith("PKey._read_private_key")) and res != "huge-kdf":
                     acc.nt(nt_code(fid, cname, api, level, label, idx))
-                if pw is not None and api == "file" and (idx % 4 == 0 or tier == "thorough"):
+                if pw is not None and api == "file" and (idx % 8 == 0 or tier == "thorough"):
                     # encrypted file, no passphrase given
                     judge(acc, fid, cname, api, label, content, None, "missing")
             acc.count("mutants_" + level)
@@ -494,9 +510,6 @@ def work(item, acc):
                         "offsets": n_bin(fid), "edits_per_offset": BIN_EDITS})
     finally:
         acc.count("cpu_ms_file_" + fid, int((time.process_time() - t0) * 1000))
-        if WORKDIR[0]:
-            shutil.rmtree(WORKDIR[0], ignore_errors=True)
-            WORKDIR[0] = None
 
 
 def work_pristine(item, acc):
@@ -511,9 +524,6 @@ def work_pristine(item, acc):
                     acc.violation("harness|bundled-file-does-not-load|%s|%s" % (fid, res), {"file": fid}, None)
                 if pw is not None:
                     judge(acc, fid, cname, api, "pristine", CONTENT[fid], None, "missing")
-    if WORKDIR[0]:
-        shutil.rmtree(WORKDIR[0], ignore_errors=True)
-        WORKDIR[0] = None
 
 
 def dispatch(item, acc):
@@ -526,12 +536,12 @@ def dispatch(item, acc):
 def main(tier):
     ck = core.Check(
         PID, tier, "fault_enumeration",
-        "fault = one edit of one key file: text level (6 edits at every byte offset of the file), body level "
-        "(7 edits at every byte offset of the decoded base64 body, re-armoured), structural (line drop/dup/"
+        "fault = one edit of one key file: text level (6 edits, quick 4, at every byte offset of the file), body level "
+        "(7 edits, quick 5, at every byte offset of the decoded base64 body, re-armoured), structural (line drop/dup/"
         "swap/blank at every line, 18 armour-tag rewrites, header injections, body of every other file spliced "
         "in); thorough adds double faults (two body bytes <= 4 apart, both bit-7-flipped / both ff; not for the two "
-        "RSA-2048 OpenSSH files); quick takes every 4th offset beyond the first 256 of the two RSA-2048 OpenSSH "
-        "files.  Every fault x loader classes (see META) x {right passphrase, none}.  nontrivial = distinct "
+        "RSA-2048 OpenSSH files); quick takes every 8th offset beyond the first 128 of the two RSA-2048 OpenSSH "
+        "files and every 2nd of the six RSA-1024 files; non-native loaders and the no-passphrase load on every 8th offset.  Every fault x loader classes (see META) x {right passphrase, none}.  nontrivial = distinct "
         "(file, loader, edit) whose load got past the BEGIN/END armour scan of PKey._read_private_key (i.e. body "
         "decoding, decryption or key parsing decided the outcome)",
         ["bcrypt.kdf memoised and capped at %d rounds by the harness (cases above the cap are counted, not run)" % MAX_ROUNDS,
@@ -551,12 +561,16 @@ def main(tier):
             st = step if level != "struct" else 40
             for lo in range(0, n, st):
                 items.append(("edits", fid, level, lo, min(n, lo + st), tier))
-    ck.merge(core.pmap(items, dispatch))
+    SCRATCH_ROOT[0] = tempfile.mkdtemp(prefix="c37-", dir="/dev/shm")
+    try:
+        ck.merge(core.pmap(items, dispatch))
+    finally:
+        cleanup()
     ck.extra["files"] = {f[0]: {"bytes": n_text(f[0]), "body_bytes": n_bin(f[0]), "native": f[4],
                                 "encrypted": f[3] is not None} for f in FILES}
     ck.extra["bound"] = ("single faults at all offsets of all %d files%s" % (
         len(FILES), "; double faults within a 4-byte window" if tier == "thorough"
-        else " (two RSA-2048 files: every 4th offset beyond 256)"))
+        else " (beyond offset 128: RSA-2048 OpenSSH files every 8th, RSA-1024 files every 2nd offset)"))
     return ck.finish()
 
 
@@ -565,7 +579,7 @@ def replay(rec):
     content = bytes.fromhex(r["content_hex"])
     print("file %s, edit %s, loader %s.%s, passphrase %r" % (r["fid"], r["edit"], r["loader"], r["api"], r["password"]))
     how, val = do_load(r["loader"], r["api"], content, r["password"])
-    shutil.rmtree(WORKDIR[0], ignore_errors=True)
+    cleanup()
     if how == "other":
         import traceback
         traceback.print_exception(type(val), val, val.__traceback__)
@@ -577,7 +591,7 @@ def replay(rec):
     if how == "key":
         acc = core.Acc()
         res = judge(acc, r["fid"], r["loader"], r["api"], r["edit"], content, r["password"], "")
-        shutil.rmtree(WORKDIR[0], ignore_errors=True)
+        cleanup()
         print("-> key loaded: %s; verdict %s" % (val.get_name(), res))
         for v in acc.violations:
             print("violation:", v["key"])
